@@ -2,6 +2,7 @@
 use crate::common::Obs;
 use crate::gas::GasBinder;
 use crate::gateway::GatewayBinder;
+use crate::operators::OperatorsBinder;
 use crate::token::TokenBinder;
 use serde_json::Value as J;
 
@@ -9,6 +10,7 @@ pub enum B {
     Gateway(GatewayBinder),
     Token(TokenBinder),
     Gas(GasBinder),
+    Operators(OperatorsBinder),
 }
 
 impl B {
@@ -17,6 +19,7 @@ impl B {
             B::Gateway(b) => b.exec(act),
             B::Token(b) => b.exec(act),
             B::Gas(b) => b.exec(act),
+            B::Operators(b) => b.exec(act),
         }
     }
     pub fn project(&mut self) -> J {
@@ -24,6 +27,7 @@ impl B {
             B::Gateway(b) => b.project(),
             B::Token(b) => b.project(),
             B::Gas(b) => b.project(),
+            B::Operators(b) => b.project(),
         }
     }
 }
@@ -33,6 +37,7 @@ pub fn make_binder(module: &str, inst: &J, init: &J) -> B {
         "Gateway" => B::Gateway(GatewayBinder::new(inst, init)),
         "Token" => B::Token(TokenBinder::new(inst, init)),
         "GasService" => B::Gas(GasBinder::new(inst, init)),
+        "Operators" => B::Operators(OperatorsBinder::new(inst, init)),
         m => panic!("unknown module {m}"),
     }
 }
